@@ -31,6 +31,7 @@ class HClass:
         self.module = module
         self.bases: list[HClass] = []
         self.methods: list[tuple[str, str]] = []  # (name, kind) kind: inst | static | prop | private | dunder
+        self.attrs: list[str] = []  # class attributes of a PUBLIC class named like a member of one of its private ancestors
 
     @property
     def private(self) -> bool:
@@ -55,7 +56,7 @@ class HClass:
         return out
 
     def body(self) -> str:
-        lines = []
+        lines = [f"    {a}: int = 0\n" for a in self.attrs]
         for m, kind in self.methods:
             if kind == "static":
                 lines.append(f"    @staticmethod\n    def {m}({self.tag(m)}: int = 0) -> int: ...\n")
@@ -116,6 +117,10 @@ def build_hierarchy(rng, idx: int, allow_diamond: bool, n_cls: int):
             c.methods.append((m, kind))
         if rng.random() < 0.3:
             c.methods.append((f"_hidden_{i}", "inst"))
+        if not c.private and rng.random() < 0.35:
+            inherited = sorted({m for a in c.priv_ancestors() for m, _k in a.methods if not m.startswith("_")} - {m for m, _k in c.methods})
+            if inherited:
+                c.attrs.append(rng.choice(inherited))
         classes.append(c)
     return classes
 
@@ -172,6 +177,8 @@ def cpython_truth(classes: list[HClass]):
         chain = {c.name} | {a.name for a in c.priv_ancestors()}
         mro = [k for k in pyc.__mro__ if k.__name__ in chain]
         exp = {}
+        for a in c.attrs:
+            exp[a] = c.name  # the subclass's own definition (an attribute) hides what the ancestors define under that name
         for k in mro:
             for m in vars(k):
                 if m.startswith("_"):
@@ -193,6 +200,8 @@ def cpython_truth(classes: list[HClass]):
         for m, _kind in c.methods:
             if not m.startswith("_"):
                 dfs.setdefault(m, c.name)
+        for a in c.attrs:
+            dfs.setdefault(a, c.name)
         visit(c)
         truth[c.name] = {"winner_mro": exp, "winner_dfs": dfs, "public_bases": [b.name for b in c.bases if not b.private]}
     return truth
